@@ -28,7 +28,8 @@ Definition mean_dist (ps : list (list R)) : list R :=
 (* LFQ: entropy_loss_weight * (mean per-token entropy - gamma * entropy of the mean distribution) + commitment *)
 Definition lfq_aux (ew gamma cw eps : R) (ps : list (list R)) (commit : R) : R :=
   ew * (rmean (map (centropy eps) ps) - gamma * centropy eps (mean_dist ps)) + cw * commit.
-(* every loss term is zero in evaluation mode: the commitment term is added only under the guard of the source *)
-Definition commit_term (return_loss has_commit training : bool) (cw mse : R) : R :=
-  if g_vq_commit return_loss has_commit training then cw * mse else 0.
+(* every loss term is zero in evaluation mode: the commitment term is added only under the guard of the source
+   (since /repo 440ad65 a call with `indices=` computes it too and then returns the cross-entropy loss instead of the aggregate) *)
+Definition commit_term (has_commit training : bool) (cw mse : R) : R :=
+  if g_vq_commit has_commit training then cw * mse else 0.
 Definition is_dist (p : list R) : Prop := Forall (fun x => 0 <= x) p /\ rsum p = 1.
